@@ -761,6 +761,10 @@ Fixpoint ann_ok (F : list funcdef) (G : tyenv) (A : expr) {struct A} : bool :=
     match args with [] => true | a :: r => arg1 v a && go r end in
   let pargsv := fix go (ps : list (str * expr)) : bool :=
     match ps with [] => true | (_, x) :: r => arg1 TAny x && go r end in
+  let elemsz (u : ty) := fix go (es : list expr) : bool :=
+    match es with [] => true | x :: r => ((ann_ok F G x && sty_is G x u) || zero_lit u x) && go r end in
+  let pelemsz (u : ty) := fix go (ps : list (str * expr)) : bool :=
+    match ps with [] => true | (_, x) :: r => ((ann_ok F G x && sty_is G x u) || zero_lit u x) && go r end in
   match A with
   | ENum _ | EStr _ | EBool _ => true
   | EVar n t => negb (str_eqb n underscore) && opt_ty_eqb (slookup n G) t && ty_small t
@@ -768,13 +772,17 @@ Fixpoint ann_ok (F : list funcdef) (G : tyenv) (A : expr) {struct A} : bool :=
   | EArr t es =>
       match es, t with
       | [], TEmptyArr => true
-      | _ :: _, TArr u => (elems u es || (is_any u && argsv TAny es && sty_is G A t)) && ty_small t
+      | _ :: _, TArr u =>
+          (elems u es || (is_any u && argsv TAny es && sty_is G A t) || (ty_decl u && elemsz u es && sty_is G A t))
+          && ty_small t
       | _, _ => false
       end
   | EMap t ps =>
       match ps, t with
       | [], TEmptyMap => true
-      | _ :: _, TMap u => (pelems u ps || (is_any u && pargsv ps && sty_is G A t)) && ty_small t && keys_nodup (map fst ps)
+      | _ :: _, TMap u =>
+          (pelems u ps || (is_any u && pargsv ps && sty_is G A t) || (ty_decl u && pelemsz u ps && sty_is G A t))
+          && ty_small t && keys_nodup (map fst ps)
       | _, _ => false
       end
   | ECall name t args =>
@@ -806,6 +814,11 @@ Section AnnLists.
       match es with [] => true | x :: r => ann_ok F G x && sty_is G x u && elems_ann r end.
     Fixpoint pelems_ann (ps : list (str * expr)) : bool :=
       match ps with [] => true | (_, x) :: r => ann_ok F G x && sty_is G x u && pelems_ann r end.
+    (* elements that may be the empty literal retyped to the element type:  [[1] []]  *)
+    Fixpoint elemsz_ann (es : list expr) : bool :=
+      match es with [] => true | x :: r => ((ann_ok F G x && sty_is G x u) || zero_lit u x) && elemsz_ann r end.
+    Fixpoint pelemsz_ann (ps : list (str * expr)) : bool :=
+      match ps with [] => true | (_, x) :: r => ((ann_ok F G x && sty_is G x u) || zero_lit u x) && pelemsz_ann r end.
   End Elems.
   Definition bound_ann (o : option expr) : bool := match o with Some x => ann_ok F G x | None => true end.
 End AnnLists.
@@ -814,7 +827,8 @@ Lemma ann_ok_EArr F G t es : ann_ok F G (EArr t es) =
       match es, t with
       | [], TEmptyArr => true
       | _ :: _, TArr u =>
-          (elems_ann F G u es || (is_any u && vargs_ann (ann_ok F G) G TAny es && sty_is G (EArr t es) t)) && ty_small t
+          (elems_ann F G u es || (is_any u && vargs_ann (ann_ok F G) G TAny es && sty_is G (EArr t es) t)
+           || (ty_decl u && elemsz_ann F G u es && sty_is G (EArr t es) t)) && ty_small t
       | _, _ => false
       end.
 Proof. destruct es, t; reflexivity. Qed.
@@ -822,7 +836,8 @@ Lemma ann_ok_EMap F G t ps : ann_ok F G (EMap t ps) =
       match ps, t with
       | [], TEmptyMap => true
       | _ :: _, TMap u =>
-          (pelems_ann F G u ps || (is_any u && pvargs_ann (ann_ok F G) G ps && sty_is G (EMap t ps) t))
+          (pelems_ann F G u ps || (is_any u && pvargs_ann (ann_ok F G) G ps && sty_is G (EMap t ps) t)
+           || (ty_decl u && pelemsz_ann F G u ps && sty_is G (EMap t ps) t))
           && ty_small t && keys_nodup (map fst ps)
       | _, _ => false
       end.
@@ -1044,6 +1059,32 @@ Lemma spec_tc_ESlice l s e' : TypesSpec.spec_tc (TypesSyntax.ESlice l s e') =
   end.
 Proof. reflexivity. Qed.
 
+Lemma elemsz_conv F G u : forall es, Forall (ann_typed F G) es -> ty_decl u = true -> elemsz_ann F G u es = true ->
+  exists ts, etys F G es = Some ts /\ forallb (ty_eqb u) ts = true.
+Proof.
+  induction 1 as [|x es Hx _ IH]; intros Hd H.
+  - exists []. auto.
+  - cbn [elemsz_ann] in H. apply andb_true_iff in H as [H1 H2]. destruct (IH Hd H2) as (ts & Hts & Hall).
+    exists (u :: ts). cbn [etys].
+    assert (ety F G x = Some u) as ->.
+    { apply orb_true_iff in H1 as [H1|H1]; [|apply zero_lit_ety; assumption].
+      apply andb_true_iff in H1 as [A B]. exact (ann_typed_by_sty F G x u Hx A B). }
+    rewrite Hts. cbn [forallb]. rewrite ty_eqb_same, Hall. auto.
+Qed.
+
+Lemma pelemsz_conv F G u : forall ps, Forall (fun p : str * expr => ann_typed F G (snd p)) ps -> ty_decl u = true ->
+  pelemsz_ann F G u ps = true -> exists ts, etyps F G ps = Some ts /\ forallb (ty_eqb u) ts = true.
+Proof.
+  induction 1 as [|[k x] ps Hx _ IH]; intros Hd H.
+  - exists []. auto.
+  - cbn [pelemsz_ann] in H. apply andb_true_iff in H as [H1 H2]. destruct (IH Hd H2) as (ts & Hts & Hall).
+    exists (u :: ts). cbn [etyps]. simpl in Hx.
+    assert (ety F G x = Some u) as ->.
+    { apply orb_true_iff in H1 as [H1|H1]; [|apply zero_lit_ety; assumption].
+      apply andb_true_iff in H1 as [A B]. exact (ann_typed_by_sty F G x u Hx A B). }
+    rewrite Hts. cbn [forallb]. rewrite ty_eqb_same, Hall. auto.
+Qed.
+
 Lemma pvargs_conv F G : forall ps,
   Forall (fun p : str * expr => arg_typed F G (snd p)) ps -> pvargs_ann (ann_ok F G) G ps = true ->
   exists ts, etyps F G ps = Some ts /\ forallb (arg_ok TAny) ts = true.
@@ -1086,6 +1127,14 @@ Proof.
     + destruct t; try discriminate. simpl in He. inversion He; subst. inversion Hs; subst. reflexivity.
     + destruct t; try discriminate. apply andb_true_iff in Ha as [Ha1 Ha2].
       apply orb_true_iff in Ha1 as [Ha1|Ha1]; cycle 1.
+      { (* elements that may be the empty literal retyped to the element type *)
+        apply andb_true_iff in Ha1 as [Ha1 Hst]. apply andb_true_iff in Ha1 as [Hd Hv].
+        destruct (elemsz_conv F G t (x :: es) HF Hd Hv) as (ts & Hts & Hok).
+        rewrite Hts, Hok. rewrite <- (sty_is_eq G _ _ e k st Hst He0 Hs).
+        unfold ty_ann. cbn [ty_value]. unfold ty_decl in Hd. apply andb_true_iff in Hd as [Hp _].
+        assert (ty_value t = true) as -> by (clear -Hp; induction t; simpl in *; auto; discriminate).
+        rewrite Ha2. reflexivity. }
+      apply orb_true_iff in Ha1 as [Ha1|Ha1]; cycle 1.
       { (* a literal of mixed element types: []any, every element wrapped *)
         apply andb_true_iff in Ha1 as [Ha1 Hst]. apply andb_true_iff in Ha1 as [Hany Hv].
         destruct t; try discriminate.
@@ -1107,6 +1156,14 @@ Proof.
     destruct ps as [|p ps].
     + destruct t; try discriminate. simpl in He. inversion He; subst. inversion Hs; subst. reflexivity.
     + destruct t; try discriminate. apply andb_true_iff in Ha as [Ha Ha3]. apply andb_true_iff in Ha as [Ha1 Ha2].
+      apply orb_true_iff in Ha1 as [Ha1|Ha1]; cycle 1.
+      { (* values that may be the empty literal retyped to the value type *)
+        apply andb_true_iff in Ha1 as [Ha1 Hst]. apply andb_true_iff in Ha1 as [Hd Hv].
+        destruct (pelemsz_conv F G t (p :: ps) HF Hd Hv) as (ts & Hts & Hok).
+        rewrite Hts, Hok. rewrite <- (sty_is_eq G _ _ e k st Hst He0 Hs).
+        unfold ty_ann. cbn [ty_value]. unfold ty_decl in Hd. apply andb_true_iff in Hd as [Hp _].
+        assert (ty_value t = true) as -> by (clear -Hp; induction t; simpl in *; auto; discriminate).
+        rewrite Ha2, Ha3. reflexivity. }
       apply orb_true_iff in Ha1 as [Ha1|Ha1]; cycle 1.
       { (* a map literal of mixed value types: {}any, every value wrapped *)
         apply andb_true_iff in Ha1 as [Ha1 Hst]. apply andb_true_iff in Ha1 as [Hany Hv].
